@@ -202,14 +202,20 @@ fn draw(lo: i64, hi: i64, k: usize, rng: &mut StdRng) -> Vec<usize> {
 }
 
 // ---------------------------------------------------------------- one case
+/// roles of the shredder objects of a worker: the leader's (only ever shreds), the receiver's (only
+/// ever deshreds, plus the re-shred check) and, for the history family, the "node" that serves both
+const LEADER: usize = 0;
+const RECEIVER: usize = 1;
+const NODE: usize = 2;
+
 struct Worker {
-    leader: Shredders,
-    receiver: Shredders,
+    inst: [Shredders; 3],
     sk: SecretKey,
     seed: u64,
     rep: CaseReport,
     subsets_run: u64,
     regen_checked: u64,
+    histories: u64,
 }
 
 fn slice_obs(s: &Slice, want_data: &[u8]) -> Value {
@@ -227,13 +233,13 @@ impl Worker {
     fn new(seed: u64) -> Self {
         let mut rng = StdRng::seed_from_u64(seed ^ 0xC11_5EED);
         Self {
-            leader: Shredders::new(),
-            receiver: Shredders::new(),
+            inst: [Shredders::new(), Shredders::new(), Shredders::new()],
             sk: SecretKey::new(&mut rng),
             seed,
             rep: CaseReport::new("shred"),
             subsets_run: 0,
             regen_checked: 0,
+            histories: 0,
         }
     }
 
@@ -244,6 +250,11 @@ impl Worker {
     }
 
     fn run_case(&mut self, idx: u64, case: &Value, subsets: usize) {
+        self.run_case_as(idx, case, subsets, LEADER, RECEIVER);
+    }
+
+    /// `li` / `ri`: which shredder object plays the leader / the receiver
+    fn run_case_as(&mut self, idx: u64, case: &Value, subsets: usize, li: usize, ri: usize) {
         let inp = &case["in"];
         let exp = &case["exp"];
         let v = inp["v"].as_str().expect("v");
@@ -258,9 +269,9 @@ impl Worker {
         // ---- leader: shred
         let slice_a = slice_of(&inp["slice"], &mut rng);
         let e_sh = &exp["shred"];
-        let shreds_a = match self.leader.shred(pv, &slice_a, &self.sk) {
+        let shreds_a = match self.inst[li].shred(pv, &slice_a, &self.sk) {
             Err(p) => {
-                self.leader.reset();
+                self.inst[li].reset();
                 self.rep.case(&format!("{fam}:shred-panic"), key, case);
                 self.div(case, "shred.panic", e_sh.clone(), json!({"panic": p}));
                 return;
@@ -308,6 +319,24 @@ impl Worker {
             }
         }
 
+        // history step with the node as leader: a shredder object used for nothing else must produce
+        // the same shard size, and for the variants without fresh key material the same 64 shreds
+        if li != LEADER {
+            match self.inst[LEADER].shred(pv, &slice_a, &self.sk) {
+                Ok(Ok(other)) => {
+                    let same = other.iter().map(wire).zip(&wire_a).all(|(x, y)| x == *y);
+                    let same_size = wire_view(&wire(&other[0])).0 == wire_view(&wire_a[0]).0;
+                    if !same_size || (exp["det"].as_bool() == Some(true) && !same) {
+                        self.div(case, "shred.instance", json!({"det": exp["det"], "shard": want_shard}), json!({"identical": same, "same_shard_size": same_size}));
+                    }
+                }
+                _ => {
+                    self.inst[LEADER].reset();
+                    self.div(case, "shred.instance", e_sh.clone(), json!("a fresh shredder object answers differently"));
+                }
+            }
+        }
+
         let e_de = &exp["deshred"];
         if e_de["run"].as_bool() != Some(true) {
             // the specification refuses the second slice of a mix case; nothing to decode
@@ -319,7 +348,7 @@ impl Worker {
         let mut shreds_b: Vec<ValidatedShred> = vec![];
         if inj == "mixsize" || inj == "mixroot" {
             let slice_b = slice_of(&inp["slice2"], &mut rng);
-            match self.leader.shred(pv, &slice_b, &self.sk) {
+            match self.inst[li].shred(pv, &slice_b, &self.sk) {
                 Ok(Ok(s)) => {
                     wire_b = s.iter().map(wire).collect();
                     let szb = wire_view(&wire_b[0]).0;
@@ -330,7 +359,7 @@ impl Worker {
                     shreds_b = s;
                 }
                 other => {
-                    self.leader.reset();
+                    self.inst[li].reset();
                     self.div(case, "shred.ok", exp["shred2"].clone(), json!(format!("{:?}", other.map(|r| r.map(|_| ())))));
                     return;
                 }
@@ -377,13 +406,13 @@ impl Worker {
                 .collect();
             let ctx = json!({"subset": sub, "held": held, "foreign": foreign});
 
-            let res = self.receiver.deshred(v, &mut arr);
+            let res = self.inst[ri].deshred(v, &mut arr);
             let after: Vec<Option<Vec<u8>>> = arr.iter().map(|s| s.as_ref().map(wire)).collect();
             let (ok, err) = match &res {
                 Ok(Ok(_)) => (true, "-".to_string()),
                 Ok(Err(e)) => (false, err_class(*e).to_string()),
                 Err(p) => {
-                    self.receiver.reset();
+                    self.inst[ri].reset();
                     (false, format!("panic: {p}"))
                 }
             };
@@ -463,17 +492,38 @@ impl Worker {
                     }
                 }
             }
+            // ---- the receiver's object shreds the reconstructed slice: same verdict and shard size as the
+            // leader's, and (no fresh key material) the leader's 64 shreds byte for byte
+            // (not inside a history: there the node serves exactly the calls of its log)
+            if ok && sub == 0 && inj == "none" && ri != NODE {
+                let rs: Slice = (**res.as_ref().unwrap().as_ref().unwrap()).clone();
+                match self.inst[ri].shred(v, &rs, &self.sk) {
+                    Ok(Ok(again)) => {
+                        let wire_r: Vec<Vec<u8>> = again.iter().map(wire).collect();
+                        let same = wire_r == wire_a;
+                        let size = wire_view(&wire_r[0]).0;
+                        if size != want_shard || (exp["det"].as_bool() == Some(true) && !same) {
+                            self.div(case, "reshred.shreds", json!({"det": exp["det"], "shard": want_shard}), json!({"identical": same, "shard": size, "at": ctx}));
+                        }
+                    }
+                    Ok(Err(e)) => self.div(case, "reshred.ok", e_sh.clone(), json!({"ok": false, "err": e, "at": ctx})),
+                    Err(p) => {
+                        self.inst[ri].reset();
+                        self.div(case, "reshred.panic", e_sh.clone(), json!({"panic": p, "at": ctx}));
+                    }
+                }
+            }
             // ---- forget what was held, decode again from regenerated shreds only
             let again = &e_de["again"];
-            if ok && again["run"].as_bool() == Some(true) {
+            if ok && again["run"].as_bool() == Some(true) && ri != NODE {
                 for &i in &held {
                     arr[i] = None;
                 }
                 let before2: Vec<Option<Vec<u8>>> = arr.iter().map(|s| s.as_ref().map(wire)).collect();
-                let res2 = self.receiver.deshred(v, &mut arr);
+                let res2 = self.inst[ri].deshred(v, &mut arr);
                 let ok2 = matches!(res2, Ok(Ok(_)));
                 if res2.is_err() {
-                    self.receiver.reset();
+                    self.inst[ri].reset();
                 }
                 if Some(ok2) != again["ok"].as_bool() {
                     self.div(case, "again.ok", again.clone(), json!({"ok": ok2, "res": format!("{:?}", res2.as_ref().map(|r| r.as_ref().err())), "at": ctx}));
@@ -490,6 +540,28 @@ impl Worker {
                         self.div(case, "again.touched", json!("unchanged"), json!({"at": ctx}));
                     }
                 }
+            }
+        }
+    }
+
+    /// one history: a fresh "node" object serves every step, as leader or as receiver
+    fn run_history(&mut self, idx: u64, hist: &Value) {
+        self.inst[NODE] = Shredders::new();
+        self.histories += 1;
+        for (k, step) in hist["steps"].as_array().expect("steps").iter().enumerate() {
+            let (li, ri) = match step["node"].as_str() {
+                Some("leader") => (NODE, RECEIVER),
+                Some("receiver") => (LEADER, NODE),
+                other => panic!("harness: unknown role {other:?}"),
+            };
+            let before = self.rep.div_count;
+            self.run_case_as(mix(idx, 0x4157 + k as u64), step, 1, li, ri);
+            if self.rep.div_count != before {
+                // attach the whole history to what was just recorded
+                if let Some(d) = self.rep.divergences.last_mut() {
+                    d["history"] = json!({"step": k, "steps": hist["steps"].as_array().unwrap().iter().map(|s| json!({"node": s["node"], "n": s["in"]["slice"]["n"], "held": s["exp"]["held"]})).collect::<Vec<_>>()});
+                }
+                break; // the object may be broken from here on; later steps would only echo it
             }
         }
     }
@@ -518,14 +590,20 @@ pub struct Opts {
     pub subsets_inject: usize,
 }
 
-pub fn replay(path: &str, o: &Opts) -> anyhow::Result<Value> {
+pub fn replay(path: &str, hist_path: Option<&str>, o: &Opts) -> anyhow::Result<Value> {
     let cases = load_tagged(path, "CASE")?;
     let n = cases.len();
+    let hists = std::sync::Arc::new(match hist_path {
+        Some(p) => load_tagged(p, "HIST")?,
+        None => vec![],
+    });
+    let nh = hists.len();
     let threads = o.threads.max(1);
     let cases = std::sync::Arc::new(cases);
     let mut handles = vec![];
     for t in 0..threads {
         let cases = cases.clone();
+        let hists = hists.clone();
         let (seed, ss, sw, si) = (o.seed, o.subsets_shape, o.subsets_sweep, o.subsets_inject);
         handles.push(std::thread::spawn(move || {
             let mut w = Worker::new(seed);
@@ -540,15 +618,21 @@ pub fn replay(path: &str, o: &Opts) -> anyhow::Result<Value> {
                 };
                 w.run_case(idx as u64, c, k.max(1));
             }
+            for (idx, h) in hists.iter().enumerate() {
+                if idx % threads == t {
+                    w.run_history((1u64 << 40) + idx as u64, h);
+                }
+            }
             w
         }));
     }
     let mut total = CaseReport::new("shred");
-    let (mut subsets, mut regen) = (0u64, 0u64);
+    let (mut subsets, mut regen, mut histories) = (0u64, 0u64, 0u64);
     for h in handles {
         let w = h.join().map_err(|p| anyhow::anyhow!("harness thread failed: {}", panic_msg(p)))?;
         subsets += w.subsets_run;
         regen += w.regen_checked;
+        histories += w.histories;
         total.cases += w.rep.cases;
         total.distinct.extend(w.rep.distinct);
         total.div_count += w.rep.div_count;
@@ -571,6 +655,8 @@ pub fn replay(path: &str, o: &Opts) -> anyhow::Result<Value> {
     }
     let mut out = total.to_json();
     out["loaded"] = json!(n);
+    out["histories_loaded"] = json!(nh);
+    out["histories"] = json!(histories);
     out["subsets"] = json!(subsets);
     out["regenerated_shreds_verified"] = json!(regen);
     Ok(out)
@@ -580,7 +666,7 @@ fn arg_after(args: &[String], name: &str) -> Option<String> {
     args.iter().position(|a| a == name).and_then(|i| args.get(i + 1).cloned())
 }
 
-/// `replay-shred --tlc-out <file> [--threads N] [--subsets-shape K] [--subsets-sweep K] [--subsets-inject K]`
+/// `replay-shred --tlc-out <file> [--hist-out <file>] [--threads N] [--subsets-shape K] [--subsets-sweep K] [--subsets-inject K]`
 pub fn run(args: &[String], seed: u64) -> anyhow::Result<Value> {
     let path = arg_after(args, "--tlc-out").expect("--tlc-out");
     let num = |name: &str, default: usize| arg_after(args, name).and_then(|s| s.parse().ok()).unwrap_or(default);
@@ -591,5 +677,5 @@ pub fn run(args: &[String], seed: u64) -> anyhow::Result<Value> {
         subsets_sweep: num("--subsets-sweep", 1),
         subsets_inject: num("--subsets-inject", 2),
     };
-    replay(&path, &o)
+    replay(&path, arg_after(args, "--hist-out").as_deref(), &o)
 }
